@@ -139,12 +139,17 @@ func c15Run(r *core.Run) {
 	w := world.NewWorld(t, world.Cfg{AuthLen: []int{-1, 32, 33, 200}[t.Draw(4)], ExtraBytes: t.Draw(3) * 7, NoPCS: true})
 	quoteRaw := w.Quote.Bytes()
 	garbage := t.Bytes(c15Buf)
-	arbStatus := t.U64() | 2 // arbitrary, never one of the named codes 0 / ...ffff / 8000..00 / 8000..01
-	if arbStatus == 0xffffffffffffffff {
-		arbStatus = 0x1234
+	// two statuses that are none of the named codes: one with the top bit clear, one with it set
+	arbLow := (t.U64() | 2) &^ (1 << 63)
+	if t.Chance(1, 3) {
+		arbLow = []uint64{1, 2, 1 << 32, 0x7fffffffffffffff}[t.Draw(4)]
 	}
-	statuses := []uint64{0, 0xffffffffffffffff, 0x8000000000000000, 0x8000000000000001, arbStatus}
-	statusNames := []string{"0", "inflight", "error", "unavailable", "arbitrary"}
+	arbHigh := t.U64() | 1<<63 | 2
+	if arbHigh == 0xffffffffffffffff {
+		arbHigh = 0x8000000000001234
+	}
+	statuses := []uint64{0, 0xffffffffffffffff, 0x8000000000000000, 0x8000000000000001, arbLow, arbHigh}
+	statusNames := []string{"0", "inflight", "error", "unavailable", "arbitrary-top-bit-clear", "arbitrary-top-bit-set"}
 	outLens := []uint32{0, 1, uint32(len(quoteRaw)), c15Buf, c15Buf + 1, 0xffffffff}
 	outNames := []string{"0", "1", "exact", "buffer", "buffer+1", "2^32-1"}
 	rdKind := r.Index % 3
@@ -159,7 +164,7 @@ func c15Run(r *core.Run) {
 	}
 	repIdx := (r.Index / 3) % len(c15Outcomes)
 	rep := c15Outcomes[repIdx]
-	r.Eventf("world: quoteLen=%d rdKind=%d report=%+v arbStatus=%#x", len(quoteRaw), rdKind, rep, arbStatus)
+	r.Eventf("world: quoteLen=%d rdKind=%d report=%+v arbitrary statuses=%#x,%#x", len(quoteRaw), rdKind, rep, arbLow, arbHigh)
 
 	var kept []c15Kept
 	for qi, qo := range c15Outcomes {
@@ -657,7 +662,7 @@ func init() {
 		ID:    "C15",
 		Level: "fault_enumeration",
 		Rule: "per run a seeded device world (TD report, generated quote with tape-chosen auth-data length/extra bytes, garbage buffer, arbitrary status) and one (report-ioctl outcome, report-data kind) pair; inside the run the complete grid " +
-			"quote-ioctl{error,result 0,1,7,8,9} x status{0,in-flight,error,unavailable,arbitrary} x OutLen{0,1,exact,buffer,buffer+1,2^32-1} x buffer{quote,garbage,TD report left in place} plus 2-4 callers with different report data on one device at overlapping simulated times (fake-clock bubble; each must get the quote made for its own report data); plus all 24 provider behaviours (supported or not x bytes{quote, empty, nil, quote+zero padding, quote+other bytes, cut quote} x error or not); for every good device outcome and every supported provider GetQuote is compared with abi.QuoteToProto of the raw result; " +
+			"quote-ioctl{error,result 0,1,7,8,9} x status{0,in-flight,error,unavailable,arbitrary with the top bit clear,arbitrary with the top bit set} x OutLen{0,1,exact,buffer,buffer+1,2^32-1} x buffer{quote,garbage,TD report left in place} plus 2-4 callers with different report data on one device at overlapping simulated times (fake-clock bubble; each must get the quote made for its own report data); plus all 24 provider behaviours (supported or not x bytes{quote, empty, nil, quote+zero padding, quote+other bytes, cut quote} x error or not); for every good device outcome and every supported provider GetQuote is compared with abi.QuoteToProto of the raw result; " +
 			"30 runs cover report-ioctl{error,0,1,7,8,9} x report-data{zeros,ones,random}. distinct = (report ok, quote outcome, status, OutLen, buffer kind, verdict); all but the single all-good cell carry an injected device fault",
 		Exhaustive: true,
 		Assumptions: []string{
